@@ -91,12 +91,14 @@ def run(ctx: core.Check):
     total = 0
     for label, same, reuse in (("same-plaintext/one-object", True, True), ("different-plaintext/one-object", False, True),
                                ("same-plaintext/fresh-objects", True, False), ("different-plaintext/fresh-objects", False, False),
-                               ("empty-and-one-byte-plaintexts/one-object", None, True)):
+                               ("empty-and-one-byte-plaintexts/one-object", None, True), ("megabyte-plaintexts/one-object", "big", True)):
         h = History(tr, key, label)
         enc = mod.suit_encryptor_factory()
-        for i in range(n if same is not None else n // 5):
-            # the last history: zero-length and one-byte firmware (the published IV must still be the 12 bytes that were used)
-            pt = (b"", b"\x00", b"", b"x")[i % 4] if same is None else b"constant firmware image" if same else b"firmware %d" % i
+        for i in range(n if same in (True, False) else (n // 5 if same is None else (6 if ctx.quick else 40))):
+            # the last histories: zero-length and one-byte firmware; firmware at and above 1 MiB (the published IV must still be
+            # the 12 bytes that were used, whatever path a large image takes)
+            pt = ((b"", b"\x00", b"", b"x")[i % 4] if same is None else bytes(1048576 + (1, 0, 1048699)[i % 3]) if same == "big"
+                  else b"constant firmware image" if same else b"firmware %d" % i)
             e = enc if reuse else mod.suit_encryptor_factory()
             payload, tag, info, digest, ln = e.encrypt_and_generate(pt, "fwenc", 7, str(d / "keys"), SuitDigestAlgorithms("sha-256"),
                                                                     SuitKWAlgorithms("direct"), kms)
